@@ -45,6 +45,7 @@ func fail(format string, a ...interface{}) { panic(unsupported{fmt.Sprintf(forma
 
 // VC: verification of one function under contract.
 type VC struct {
+	guardHits  map[string]bool // B1: guard rules (root.field) exercised by this function
 	rootParams []Val // values of the function's parameters at entry (replay)
 	fvCells map[string]string // B1: term of a captured-variable cell -> variable name
 	w        *World
